@@ -374,7 +374,7 @@ def run(ctx):
                        "python3 harness/pydriver/driver.py; python3-vt jsonschema + worker sem-validate; tlc SemanticsPyTrace",
     }
     a = [
-        "bounded universe: spec/SemanticsDefaultsMC.tla (one default per schema: 19 value types incl. constants and falsy defaults x 4 positions, "
+        "bounded universe: spec/SemanticsDefaultsMC.tla (one default per schema: 21 value types incl. constants, falsy and negative defaults x 4 positions, "
         "plus two schemas carrying everything) and the schemas of spec/SemanticsMC.tla that declare a default or a constant",
         "only the fields C10 speaks about are compared (declared default or constant); a struct-valued default is a set of overrides merged over "
         "the referenced struct's own defaults, compared on the merged members; nested objects present in the encoding are held to their own defaults",
